@@ -38,7 +38,9 @@ def build(name, accel, cf, mode="static", **kw):
     from direct.types import MaskFuncMode
 
     m = {"static": MaskFuncMode.STATIC, "dynamic": MaskFuncMode.DYNAMIC, "multislice": MaskFuncMode.MULTISLICE}[mode]
-    return build_masking_function(name, accelerations=[accel], center_fractions=[cf], uniform_range=False, mode=m, **kw)
+    accs = list(accel) if isinstance(accel, (list, tuple)) else [accel]
+    cfs = list(cf) if isinstance(cf, (list, tuple)) else [cf]
+    return build_masking_function(name, accelerations=accs, center_fractions=cfs, uniform_range=False, mode=m, **kw)
 
 
 def num_low(name, N, cf):
@@ -96,6 +98,18 @@ def random_config(rng, names=None, ranks=(3, 4, 5), small=False):
         if cf == 0 or feasible(name, shape, accel, cf):
             return name, mode, shape, accel, cf
     raise RuntimeError("no feasible configuration found")
+
+
+def second_pair(rng, cfg):
+    """The configuration with a second feasible (acceleration, center fraction) pair: which pair a call uses is part of
+    what the seed has to determine."""
+    name, mode, shape, accel, cf = cfg
+    for _ in range(30):
+        a2 = rng.choice([2, 3, 4, 5.5, 8] if name not in KT else [2, 3, 4])
+        c2 = rng.choice([2, 3, 4, 6, 8]) if name.startswith("Cartesian") else rng.choice([0.04, 0.08, 0.1, 0.16, 0.2])
+        if (a2, c2) != (accel, cf) and cf != 0 and feasible(name, shape, a2, c2):
+            return name, mode, shape, [accel, a2], [cf, c2]
+    return cfg
 
 
 def call(mf, shape, seed, return_acs=False, seconds=5):
